@@ -238,6 +238,19 @@ theorem C06_array_checked_elementwise (range : Option Range) (Ts : List Rat) :
           simp [b] at this
       · simp [h1]
 
+/-- The decision for an array does not depend on the order of its elements (nor, hence, on its shape). -/
+theorem C06_array_check_perm (range : Option Range) {Ts Ts' : List Rat} (h : Ts.Perm Ts') :
+    checkRangeArr range Ts = .ok () ↔ checkRangeArr range Ts' = .ok () := by
+  rw [C06_array_checked_elementwise, C06_array_checked_elementwise]
+  exact ⟨fun H T hT => H T (h.mem_iff.mpr hT), fun H T hT => H T (h.mem_iff.mp hT)⟩
+
+/-- Two arrays asked together pass exactly when each passes alone. -/
+theorem C06_array_check_append (range : Option Range) (Ts Us : List Rat) :
+    checkRangeArr range (Ts ++ Us) = .ok () ↔ checkRangeArr range Ts = .ok () ∧ checkRangeArr range Us = .ok () := by
+  simp only [C06_array_checked_elementwise, List.mem_append]
+  exact ⟨fun H => ⟨fun T hT => H T (Or.inl hT), fun T hT => H T (Or.inr hT)⟩,
+         fun H T hT => hT.elim (H.1 T) (H.2 T)⟩
+
 /-- non-vacuity: an array straddling the range is refused although its first and last elements are inside -/
 example : checkRangeArr (some (250, 1200)) [300, 1500, 500] = .error .outside := by decide +kernel
 example : checkRangeArr (some (250, 1200)) [300, 1200, 250] = .ok () := by decide +kernel
